@@ -67,6 +67,10 @@ func Scanner(g interface{}) *GeometryScanner {
 // This could be into the orb geometry type pointer or, if nil,
 // the scanner.Geometry attribute.
 func (s *GeometryScanner) Scan(d interface{}) error {
+	// reset first: a scanner reused for the next row must not keep the previous one
+	s.Geometry = nil
+	s.Valid = false
+
 	if d == nil {
 		return nil
 	}
@@ -75,9 +79,6 @@ func (s *GeometryScanner) Scan(d interface{}) error {
 	if !ok {
 		return ErrUnsupportedDataType
 	}
-
-	s.Geometry = nil
-	s.Valid = false
 
 	g, _, valid, err := wkbcommon.Scan(s.g, d)
 	if err == wkbcommon.ErrNotWKBHeader {
